@@ -410,6 +410,152 @@ Proof.
   cbn. intuition.
 Qed.
 
+(* ------------------------------------------------------------------ the node set of the expansion, and G.edges *)
+Definition ne_nkeys (g : ne_nx) : list string := map fst (ne_xn g).
+
+Lemma has_node_In g v : ne_has_node g v = true <-> In v (ne_nkeys g).
+Proof.
+  unfold ne_has_node, ne_nkeys. rewrite existsb_exists, in_map_iff. split.
+  - intros [x [Hx He]]. apply String.eqb_eq in He. eauto.
+  - intros [x [He Hx]]. exists x. split; auto. now apply String.eqb_eq.
+Qed.
+Lemma upd_node_keys l v a : map fst (ne_upd_node l v a) = map fst l.
+Proof. induction l as [|[n d] l IH]; cbn; auto. destruct (String.eqb n v); cbn; congruence. Qed.
+Lemma add_node_nkeys g v a x : In x (ne_nkeys (ne_add_node g v a)) <-> In x (ne_nkeys g) \/ x = v.
+Proof.
+  unfold ne_add_node. destruct (ne_has_node g v) eqn:E.
+  - apply has_node_In in E. unfold ne_nkeys at 1. cbn [ne_xn]. rewrite upd_node_keys. fold (ne_nkeys g).
+    split; auto. intros [H| ->]; auto.
+  - unfold ne_nkeys at 1. cbn [ne_xn]. rewrite map_app, in_app_iff. cbn. fold (ne_nkeys g). intuition.
+Qed.
+Lemma touch_nkeys g v x : In x (ne_nkeys (ne_touch g v)) <-> In x (ne_nkeys g) \/ x = v.
+Proof.
+  unfold ne_touch. destruct (ne_has_node g v) eqn:E.
+  - apply has_node_In in E. split; auto. intros [H| ->]; auto.
+  - unfold ne_nkeys at 1. cbn [ne_xn]. rewrite map_app, in_app_iff. cbn. fold (ne_nkeys g). intuition.
+Qed.
+Lemma add_edge_nkeys g u v a x : In x (ne_nkeys (ne_add_edge g u v a)) <-> In x (ne_nkeys g) \/ x = u \/ x = v.
+Proof.
+  unfold ne_add_edge. cbv zeta.
+  assert (X : In x (ne_nkeys (ne_touch (ne_touch g u) v)) <-> In x (ne_nkeys g) \/ x = u \/ x = v)
+    by (rewrite !touch_nkeys; tauto).
+  destruct (ne_has_edge (ne_touch (ne_touch g u) v) (u, v)); exact X.
+Qed.
+Lemma set_eattr_nkeys g u v k x : ne_nkeys (ne_set_eattr g u v k x) = ne_nkeys g.
+Proof. reflexivity. Qed.
+
+(* every edge leaves a node of the graph *)
+Definition ne_srcs_ok (g : ne_nx) : Prop := forall e, In e (ne_ekeys g) -> In (fst e) (ne_nkeys g).
+
+Lemma add_node_srcs_ok g v a : ne_srcs_ok g -> ne_srcs_ok (ne_add_node g v a).
+Proof. intros H e He. rewrite add_node_keys in He. apply add_node_nkeys. auto. Qed.
+Lemma add_edge_srcs_ok g u v a : ne_srcs_ok g -> ne_srcs_ok (ne_add_edge g u v a).
+Proof. intros H e He. apply add_edge_keys in He. apply add_edge_nkeys. destruct He as [He| ->]; auto. Qed.
+Lemma set_eattr_srcs_ok g u v k x : ne_srcs_ok g -> ne_srcs_ok (ne_set_eattr g u v k x).
+Proof. intros H e He. rewrite set_eattr_keys in He. rewrite set_eattr_nkeys. auto. Qed.
+
+Lemma fold_inv {S A} (P : S -> Prop) (f : S -> A -> S) (Hf : forall s a, P s -> P (f s a)) : forall l s, P s -> P (fold_left f l s).
+Proof. induction l as [|a l IH]; cbn; auto. Qed.
+
+Lemma pred_step_srcs_ok len n0 st pe : ne_srcs_ok (fst st) -> ne_srcs_ok (fst (ne_pred_step len n0 st pe)).
+Proof.
+  intros H. unfold ne_pred_step. cbn [fst]. destruct len as [l|]; [destruct (ne_dget (snd pe) l)|];
+    auto using add_edge_srcs_ok, set_eattr_srcs_ok.
+Qed.
+Lemma node_step_srcs_ok flow len st nd : ne_srcs_ok (fst st) -> ne_srcs_ok (fst (ne_node_step flow len st nd)).
+Proof.
+  intros H. unfold ne_node_step. cbn [fst].
+  apply (fold_inv ne_srcs_ok); [intros; now apply add_edge_srcs_ok|].
+  apply (fold_inv (fun s => ne_srcs_ok (fst s))); [intros; now apply pred_step_srcs_ok|]. cbn [fst].
+  assert (H3 : ne_srcs_ok (ne_add_edge (ne_add_node (ne_add_node (fst st) (ne_exp0 (ne_nm nd)) (ne_at nd)) (ne_exp1 (ne_nm nd)) (ne_at nd))
+                                      (ne_exp0 (ne_nm nd)) (ne_exp1 (ne_nm nd)) (ne_at nd)))
+    by auto using add_edge_srcs_ok, add_node_srcs_ok.
+  destruct (ne_dget (ne_at nd) flow); cbn [fst]; destruct len as [l|]; try destruct (ne_dget (ne_at nd) l);
+    auto using set_eattr_srcs_ok.
+Qed.
+Lemma expand_core_srcs_ok G flow len : ne_srcs_ok (fst (ne_expand_core G flow len)).
+Proof.
+  unfold ne_expand_core. apply (fold_inv (fun s => ne_srcs_ok (fst s))); [intros; now apply node_step_srcs_ok|].
+  intros e [].
+Qed.
+
+(* list(G.edges(data=True)) enumerates exactly the stored edges *)
+Lemma edges_view_In g x : ne_srcs_ok g -> (In x (ne_edges_view g) <-> In x (ne_xe g)).
+Proof.
+  intros H. unfold ne_edges_view. rewrite in_flat_map. split.
+  - intros [n [_ Hx]]. apply filter_In in Hx. tauto.
+  - intros Hx. assert (Hs : In (fst (fst x)) (ne_nkeys g)) by (apply (H (fst x)); unfold ne_ekeys; now apply in_map).
+    unfold ne_nkeys in Hs. apply in_map_iff in Hs. destruct Hs as [n [Hn Hin]]. exists n. split; auto.
+    apply filter_In. split; auto. rewrite Hn. apply String.eqb_refl.
+Qed.
+Theorem expand_edges_view G flow len x :
+  In x (ne_edges_view (fst (ne_expand_core G flow len))) <-> In x (ne_xe (fst (ne_expand_core G flow len))).
+Proof. apply edges_view_In, expand_core_srcs_ok. Qed.
+
+Lemma fold_nkeys {S A} (proj : S -> ne_nx) (f : S -> A -> S) (k : A -> list string)
+      (Hf : forall s a e, In e (ne_nkeys (proj (f s a))) <-> In e (ne_nkeys (proj s)) \/ In e (k a)) :
+  forall l s e, In e (ne_nkeys (proj (fold_left f l s))) <-> In e (ne_nkeys (proj s)) \/ In e (flat_map k l).
+Proof.
+  induction l as [|a l IHl]; intros s e; cbn [fold_left flat_map].
+  - cbn [In]. tauto.
+  - rewrite IHl, Hf, in_app_iff. tauto.
+Qed.
+
+Definition ne_names_of_node (nd : ne_innode) : list string :=
+  ne_exp0 (ne_nm nd) :: ne_exp1 (ne_nm nd) :: map (fun pe => ne_exp1 (fst pe)) (ne_preds nd) ++ map (fun se => ne_exp0 (fst se)) (ne_succs nd).
+
+Lemma pred_step_nkeys len n0 st pe x :
+  In x (ne_nkeys (fst (ne_pred_step len n0 st pe))) <-> In x (ne_nkeys (fst st)) \/ In x [ne_exp1 (fst pe); n0].
+Proof.
+  unfold ne_pred_step. cbn [fst].
+  assert (X : In x (ne_nkeys (ne_add_edge (fst st) (ne_exp1 (fst pe)) n0 (snd pe))) <-> In x (ne_nkeys (fst st)) \/ In x [ne_exp1 (fst pe); n0])
+    by (rewrite add_edge_nkeys; cbn [In]; intuition).
+  destruct len as [l|]; [destruct (ne_dget (snd pe) l)|]; rewrite ?set_eattr_nkeys; exact X.
+Qed.
+
+Lemma node_step_nkeys flow len st nd x :
+  In x (ne_nkeys (fst (ne_node_step flow len st nd))) <-> In x (ne_nkeys (fst st)) \/ In x (ne_names_of_node nd).
+Proof.
+  unfold ne_node_step. cbn [fst].
+  rewrite (fold_nkeys (fun g => g) (ne_succ_step (ne_exp1 (ne_nm nd))) (fun se => [ne_exp1 (ne_nm nd); ne_exp0 (fst se)])).
+  2:{ intros s a e. unfold ne_succ_step. rewrite add_edge_nkeys. cbn [In]. intuition. }
+  rewrite (fold_nkeys fst (ne_pred_step len (ne_exp0 (ne_nm nd))) (fun pe => [ne_exp1 (fst pe); ne_exp0 (ne_nm nd)])
+                      (fun s a e' => pred_step_nkeys _ _ s a e')).
+  cbn [fst].
+  set (g3 := ne_add_edge (ne_add_node (ne_add_node (fst st) (ne_exp0 (ne_nm nd)) (ne_at nd)) (ne_exp1 (ne_nm nd)) (ne_at nd))
+                         (ne_exp0 (ne_nm nd)) (ne_exp1 (ne_nm nd)) (ne_at nd)).
+  assert (K3 : In x (ne_nkeys g3) <-> In x (ne_nkeys (fst st)) \/ x = ne_exp0 (ne_nm nd) \/ x = ne_exp1 (ne_nm nd)).
+  { unfold g3. rewrite add_edge_nkeys, !add_node_nkeys. tauto. }
+  assert (K5 : forall g, ne_nkeys g = ne_nkeys g3 -> In x (ne_nkeys g) <-> In x (ne_nkeys (fst st)) \/ x = ne_exp0 (ne_nm nd) \/ x = ne_exp1 (ne_nm nd)).
+  { intros g ->. exact K3. }
+  assert (F1 : In x (flat_map (fun pe : string * ne_attrs => [ne_exp1 (fst pe); ne_exp0 (ne_nm nd)]) (ne_preds nd)) ->
+               x = ne_exp0 (ne_nm nd) \/ In x (map (fun pe => ne_exp1 (fst pe)) (ne_preds nd))).
+  { rewrite in_flat_map. intros [pe [Hpe [<-|[<-|[]]]]]; auto. right. apply in_map_iff. exists pe. auto. }
+  assert (F2 : In x (flat_map (fun se : string * ne_attrs => [ne_exp1 (ne_nm nd); ne_exp0 (fst se)]) (ne_succs nd)) ->
+               x = ne_exp1 (ne_nm nd) \/ In x (map (fun se => ne_exp0 (fst se)) (ne_succs nd))).
+  { rewrite in_flat_map. intros [se [Hse [<-|[<-|[]]]]]; auto. right. apply in_map_iff. exists se. auto. }
+  assert (B1 : In x (map (fun pe => ne_exp1 (fst pe)) (ne_preds nd)) ->
+               In x (flat_map (fun pe : string * ne_attrs => [ne_exp1 (fst pe); ne_exp0 (ne_nm nd)]) (ne_preds nd))).
+  { rewrite in_map_iff, in_flat_map. intros [pe [<- Hpe]]. exists pe. cbn. auto. }
+  assert (B2 : In x (map (fun se => ne_exp0 (fst se)) (ne_succs nd)) ->
+               In x (flat_map (fun se : string * ne_attrs => [ne_exp1 (ne_nm nd); ne_exp0 (fst se)]) (ne_succs nd))).
+  { rewrite in_map_iff, in_flat_map. intros [se [<- Hse]]. exists se. cbn. auto. }
+  unfold ne_names_of_node. cbn [In]. rewrite in_app_iff.
+  rewrite K5.
+  - intuition.
+  - destruct (ne_dget (ne_at nd) flow); cbn [fst]; destruct len as [l|]; try destruct (ne_dget (ne_at nd) l);
+      rewrite ?set_eattr_nkeys; reflexivity.
+Qed.
+
+(* the nodes of the expanded graph (before synthetic source/sink): v.0 and v.1 for the nodes v of G *)
+Theorem expand_nodes_spec G flow len x :
+  In x (ne_nkeys (fst (ne_expand_core G flow len))) <-> In x (flat_map ne_names_of_node G).
+Proof.
+  unfold ne_expand_core.
+  rewrite (fold_nkeys fst (ne_node_step flow len) ne_names_of_node (fun s a e' => node_step_nkeys flow len s a e')).
+  cbn. intuition.
+Qed.
+
 (* ------------------------------------------------------------------ graph-level reading *)
 Definition ne_inode (G : ne_ingraph) (v : string) : Prop := In v (map ne_nm G).
 (* (u, v) is an edge of the original graph: u is listed among G.predecessors(v) *)
@@ -692,4 +838,20 @@ Proof.
   rewrite condense_paths_expand.
   - cbn [ne_bind combine ne_remove_empty filter fst]. destruct p as [|a [|b r]]; cbn in Hl; try lia. reflexivity.
   - intros q v [<-|[]] Hv. now apply Hp.
+Qed.
+
+(* ------------------------------------------------------------------ node set under well-formedness *)
+Theorem expand_nodes_rel G flow len x :
+  ne_wf G ->
+  (In x (ne_nkeys (fst (ne_expand_core G flow len))) <-> exists v, ne_inode G v /\ (x = ne_exp0 v \/ x = ne_exp1 v)).
+Proof.
+  intros W. rewrite expand_nodes_spec, in_flat_map. unfold ne_names_of_node. split.
+  - intros [nd [Hnd H]]. cbn [In] in H. rewrite in_app_iff in H.
+    assert (Nv : ne_inode G (ne_nm nd)) by (unfold ne_inode; now apply in_map).
+    destruct H as [<-|[<-|[H|H]]]; eauto; apply in_map_iff in H; destruct H as [y [<- Hy]].
+    + exists (fst y). split; auto. apply (wf_tail G W (fst y) (ne_nm nd)). exists nd. repeat split; auto. now apply in_map.
+    + exists (fst y). split; auto. destruct (wf_succ G W nd (fst y) Hnd) as [nd' [Hnd' [E _]]]; [now apply in_map|].
+      unfold ne_inode. rewrite <- E. now apply in_map.
+  - intros [v [Hv H]]. unfold ne_inode in Hv. apply in_map_iff in Hv. destruct Hv as [nd [<- Hnd]].
+    exists nd. split; auto. cbn [In]. destruct H as [-> | ->]; auto.
 Qed.
